@@ -297,7 +297,7 @@ func c11RunScenario(sc *c11Scenario, r *rand.Rand, fixed []c11Choice) (res c11Re
 		}()
 	}
 
-	watchdog := time.After(20 * time.Second)
+	watchdog := time.After(6 * time.Second)
 	expectReturn := map[int]bool{}
 	// process one event
 	handle := func(ev c11Event) {
